@@ -1,6 +1,183 @@
 import OtelVerif.Common.Line
 import OtelVerif.Model.C05
-/-! driver for C05 (stub) -/
-def main : IO UInt32 := do
-  IO.eprintln "drv_c05: not built yet"
-  return 2
+/-! driver for C05: models `c05-retry` (retry loop), `c05-err` (error-chain classification), `c05-validate` -/
+open OtelVerif OtelVerif.Line OtelVerif.C05
+
+namespace OtelVerif.Drivers.C05
+
+def optNat (s : String) : Option (Option Nat) :=
+  if s = "-" then some none else s.toNat?.map some
+
+/-- `e` = empty list, `1,2,3` -/
+def idList (s : String) : Option (List Nat) :=
+  if s = "e" then some [] else (s.splitOn ",").mapM String.toNat?
+
+def optIdList (s : String) : Option (Option (List Nat)) :=
+  if s = "-" then some none else (idList s).map some
+
+def showIds (l : List Nat) : String := if l.isEmpty then "e" else ",".intercalate (l.map toString)
+
+def b01 (b : Bool) : String := if b then "1" else "0"
+
+def kvBool (toks : List String) (k : String) : Option Bool :=
+  match kv toks k with
+  | some "1" => some true
+  | some "0" => some false
+  | _ => none
+
+structure RS where
+  cfg : Option Cfg := none
+  env : Option Env := none
+  script : List Attempt := []   -- reversed
+  payload : List Nat := []
+  sent : Bool := false
+  implCalls : List (Nat × List Nat) := []  -- reversed
+  implRet : Option (Nat × String × Bool × Bool) := none
+  bad : Option String := none
+
+def parseCfg (t : List String) : Option Cfg := do
+  let en ← kvBool t "en"
+  let init ← kvNat t "init"
+  let maxint ← kvNat t "maxint"
+  let maxel ← kvNat t "maxel"
+  let mnum ← kvNat t "mnum"
+  let mden ← kvNat t "mden"
+  let rfnum ← kvNat t "rfnum"
+  let rfden ← kvNat t "rfden"
+  let timeout ← kvNat t "timeout"
+  if mden = 0 ∨ rfden = 0 then none
+  else pure { enabled := en, initial := init, maxInt := maxint, maxElapsed := maxel, mulNum := mnum, mulDen := mden,
+              rfNum := rfnum, rfDen := rfden, timeout := timeout }
+
+def parseEnv (t : List String) : Option Env := do
+  let dl ← (kv t "dl").bind optNat
+  let cn ← (kv t "cn").bind optNat
+  let sd ← (kv t "sd").bind optNat
+  pure { deadline := dl, cancel := cn, shutdown := sd }
+
+def parseAtt (t : List String) : Option Attempt := do
+  let u ← kvBool t "u"
+  let dur ← kvNat t "dur"
+  let ok ← kvBool t "ok"
+  let perm ← kvBool t "perm"
+  let th ← (kv t "th").bind optNat
+  let rest ← (kv t "rest").bind optIdList
+  let drawn ← kvNat t "drawn"
+  pure { untilCtx := u, dur := dur, ok := ok, perm := perm, throttle := th, rest := rest, drawn := drawn }
+
+def retryHandler : Handler RS where
+  init := {}
+  onOp := fun s toks =>
+    match toks with
+    | "cfg" :: rest =>
+      match parseCfg rest with
+      | some c => ({ s with cfg := some c }, [])
+      | none => (s, ["obs bad-op"])
+    | "env" :: rest =>
+      match parseEnv rest with
+      | some e => ({ s with env := some e }, [])
+      | none => (s, ["obs bad-op"])
+    | "att" :: rest =>
+      match parseAtt rest with
+      | some a => ({ s with script := a :: s.script }, [])
+      | none => (s, ["obs bad-op"])
+    | ["send", p] =>
+      match s.cfg, s.env, (kv [p] "payload").bind idList with
+      | some c, some e, some pl =>
+        let tr := send c e pl s.script.reverse
+        let lines := tr.calls.map (fun cl => s!"obs call {cl.t} {showIds cl.payload}") ++
+          [s!"obs ret {tr.tEnd} {tr.reason.toString} perm={b01 tr.permFlag} sd={b01 tr.sdFlag}"]
+        ({ s with payload := pl, sent := true }, lines)
+      | _, _, _ => (s, ["obs bad-op"])
+    | _ => (s, ["obs bad-op"])
+  onObs := fun s toks =>
+    match toks with
+    | [_, "call", t, ids] =>
+      match t.toNat?, idList ids with
+      | some t, some ids => { s with implCalls := (t, ids) :: s.implCalls }
+      | _, _ => { s with bad := some "unparsable call" }
+    | [_, "ret", t, reason, p, sd] =>
+      match t.toNat?, kvBool [p] "perm", kvBool [sd] "sd" with
+      | some t, some p, some sd => { s with implRet := some (t, reason, p, sd) }
+      | _, _, _ => { s with bad := some "unparsable ret" }
+    | _ => s
+  onEnd := fun s =>
+    if !s.sent then [] else
+    match s.bad, s.cfg, s.env, s.implRet with
+    | some b, _, _, _ => [s!"prop retry=FAIL sig=C05/retry/unparsable {b}"]
+    | none, some c, some e, some (t, reason, p, sd) =>
+      let o : Observed := { calls := s.implCalls.reverse, tEnd := t, isNil := reason == "ok", permFlag := p, sdFlag := sd }
+      match checkObserved c e s.payload s.script.reverse o with
+      | [] => ["prop retry=ok"]
+      | sig :: more => [s!"prop retry=FAIL sig={sig} also={more} calls={o.calls.map (·.1)} ret={t}/{reason}"]
+    | none, _, _, _ => ["prop retry=FAIL sig=C05/retry/no-return-observed"]
+
+/-! ### error trees: prefix encoding `L | W x | P x | T<d> x | D<ids> x | O x | S x | J<n> x1 … xn` -/
+
+partial def parseErr : List String → Option (Err × List String)
+  | [] => none
+  | tok :: rest =>
+    let one (mk : Err → Err) : Option (Err × List String) :=
+      match parseErr rest with
+      | some (e, r) => some (mk e, r)
+      | none => none
+    if tok = "L" then some (.leaf, rest)
+    else if tok = "W" then one .wrap
+    else if tok = "P" then one .perm
+    else if tok = "O" then one .otherSignal
+    else if tok = "S" then one .shutdown
+    else if tok.startsWith "T" then
+      match (tok.drop 1).toString.toNat? with
+      | some d => one (.throttle d)
+      | none => none
+    else if tok.startsWith "D" then
+      match idList (tok.drop 1).toString with
+      | some ids => one (.partialData ids)
+      | none => none
+    else if tok.startsWith "J" then
+      match (tok.drop 1).toString.toNat? with
+      | some n =>
+        let rec many (k : Nat) (acc : List Err) (r : List String) : Option (Err × List String) :=
+          match k with
+          | 0 => some (.join acc.reverse, r)
+          | k + 1 =>
+            match parseErr r with
+            | some (e, r') => many k (e :: acc) r'
+            | none => none
+        many n [] rest
+      | none => none
+    else none
+
+def showOptNat : Option Nat → String
+  | some n => toString n
+  | none => "-"
+
+def errHandler : Handler Unit where
+  init := ()
+  onOp := fun s toks =>
+    match toks with
+    | "err" :: rest =>
+      match parseErr rest with
+      | some (e, []) =>
+        (s, [s!"obs cls perm={b01 e.isPermanent} sd={b01 e.isShutdown} th={showOptNat e.throttleDelay} rest={match e.remainder with | some r => showIds r | none => "-"}"])
+      | _ => (s, ["obs bad-op"])
+    | _ => (s, ["obs bad-op"])
+
+def validateHandler : Handler Unit where
+  init := ()
+  onOp := fun s toks =>
+    match toks with
+    | "validate" :: t =>
+      match kvBool t "en", kvInt t "init", kvInt t "maxint", kvInt t "maxel", kvInt t "mnum", kvNat t "mden", kvInt t "rfnum", kvNat t "rfden", kvInt t "timeout" with
+      | some en, some i, some mi, some me, some mn, some md, some rn, some rd, some to =>
+        let r : RawCfg := { enabled := en, initial := i, maxInt := mi, maxElapsed := me, mulNum := mn, mulDen := md, rfNum := rn, rfDen := rd, timeout := to }
+        (s, [s!"obs valid {validateBackoff r} {b01 (validateTimeout r)}"])
+      | _, _, _, _, _, _, _, _, _ => (s, ["obs bad-op"])
+    | _ => (s, ["obs bad-op"])
+
+end OtelVerif.Drivers.C05
+
+def main : IO UInt32 :=
+  runMulti [("c05-retry", run OtelVerif.Drivers.C05.retryHandler),
+            ("c05-err", run OtelVerif.Drivers.C05.errHandler),
+            ("c05-validate", run OtelVerif.Drivers.C05.validateHandler)]
